@@ -35,6 +35,8 @@ type Deposit struct {
 	Node int
 	// Short != nil: the slot holds this short value instead of keccak256(Msg) (so a deposit of Msg
 	// never happened); Ground: Msg was ground so that its hash ends in Short / starts with 0x00.
+	To       uint64 // destination chain of the message
+	TwinOf   int    // >= 0: carries the cross-chain id of that earlier deposit
 	Short    []byte
 	Ground   bool
 	LeadZero bool
